@@ -390,12 +390,15 @@ func (x *Exec) stmt(s *State, fr *Frame, st ast.Stmt) (out *State) {
 		return nil
 	}
 	if x.top.Abstract {
+		spec0, noObl0, entry0 := x.spec, x.noObl, x.entry
 		defer func() {
 			if r := recover(); r != nil {
 				u, ok := r.(unsupported)
 				if !ok {
 					panic(r)
 				}
+				// whatever the unwinding skipped: back to the mode we were in
+				x.spec, x.noObl, x.entry = spec0, noObl0, entry0
 				x.note("abstracted", fmt.Sprintf("statement at %s: %s", x.w.Fset.Position(st.Pos()), u.msg))
 				out = x.havocStmt(s, fr, st)
 			}
